@@ -97,6 +97,23 @@ def corpus(rng, n):
         else:
             name = rng.choice(sorted(x for x in g.lib.SEGMENTS if x not in ('MSH', 'ANYHL7SEGMENT')))
             out.append(('seg', (v, name + '|' + long_text, strict, DEF)))
+    # components / fields whose datatype is a base datatype in some versions only (DTM, TN, CM, SNM, IS, TM, WD, GTS, ...):
+    # is_base_datatype(dt) without the explicit version would then follow the *default* version
+    import hl7apy
+    bases = {v: set(hl7apy.load_library(v).BASE_DATATYPES) for v in VERSIONS}
+    sensitive = set().union(*bases.values()) - set.intersection(*bases.values())
+    for v in VERSIONS:
+        lib = gens[v].lib
+        rows = [k for k in sorted(lib.DATATYPES) if gen.well_formed_ref(lib.DATATYPES[k]) and len(lib.DATATYPES[k]) == 6
+                and lib.DATATYPES[k][0] == 'leaf' and lib.DATATYPES[k][2] in sensitive and lib.DATATYPES[k][2] in bases[v]]
+        for k in rng.sample(rows, min(len(rows), 4)):
+            for strict in (False, True):
+                out.append(('comp', (v, rng.choice(['2008&X', 'a&b', 'x&y&z']), k, None, strict, DEF)))
+        frows = [k for k in sorted(lib.FIELDS) if gen.well_formed_ref(lib.FIELDS[k]) and len(lib.FIELDS[k]) == 6
+                 and lib.FIELDS[k][0] == 'leaf' and lib.FIELDS[k][2] in sensitive and lib.FIELDS[k][2] in bases[v]]
+        for k in rng.sample(frows, min(len(frows), 4)):
+            out.append(('fld', (v, rng.choice(['a^b', 'a&b', 'x^y^z']), k, False, DEF)))
+            out.append(('seg', (v, k.split('_')[0] + '|' * int(k.split('_')[1]) + rng.choice(['a^b', 'a&b']), False, DEF)))
     return out
 
 
